@@ -68,36 +68,36 @@ type Exec struct {
 	bounds map[string]int
 
 	// per path
-	prefix   []int8
-	pos      int
-	trace    []int8
-	pending  [][]int8
-	globals  map[*ssa.Global]*Cell
-	cellSeq  int
-	objSeq   int
-	declared map[string]int    // model variables: name -> width
-	strVars  map[string]bool   // variables holding interned string ids
-	choices  map[string]uint64 // concrete fork decisions recorded under a name
-	occ      map[string]int
-	spawned  []*spawnRec
-	stack    []*frame
-	covers   map[string]bool
-	tags     map[string]string
-	panicLbl string
-	fatalLbl string
-	steps    int
-	inBg     bool
-	pcDirty  bool
-	model    map[string]uint64
-	pendingA []pendingAssert
-	modelOK  bool
-	clockN   int
-	lastNow  *Term
-	ghost    map[string]Value
-	mutexOps int
-	blobSeq  int
-	vfs      *VFS
-	accessLog []accessRec
+	prefix     []int8
+	pos        int
+	trace      []int8
+	pending    [][]int8
+	globals    map[*ssa.Global]*Cell
+	cellSeq    int
+	objSeq     int
+	declared   map[string]int    // model variables: name -> width
+	strVars    map[string]bool   // variables holding interned string ids
+	choices    map[string]uint64 // concrete fork decisions recorded under a name
+	occ        map[string]int
+	spawned    []*spawnRec
+	stack      []*frame
+	covers     map[string]bool
+	tags       map[string]string
+	panicLbl   string
+	fatalLbl   string
+	steps      int
+	inBg       bool
+	pcDirty    bool
+	model      map[string]uint64
+	pendingA   []pendingAssert
+	modelOK    bool
+	clockN     int
+	lastNow    *Term
+	ghost      map[string]Value
+	mutexOps   int
+	blobSeq    int
+	vfs        *VFS
+	accessLog  []accessRec
 	trackLocks bool
 	muHeld     int
 	raftCells  int
@@ -827,7 +827,6 @@ func (ex *Exec) step(fr *frame, ins ssa.Instruction) {
 		ex.fatal("unsupported instruction %T: %s", ins, ins)
 	}
 }
-
 
 func isByte(t types.Type) bool {
 	b, ok := t.Underlying().(*types.Basic)
